@@ -55,8 +55,11 @@ class StateEvaluator(QuantifierSimplifier):
             _variable_assignments
         )
         self._state = state
-        r = self.walk(expression)
-        self._variable_assignments = None
+        try:
+            r = self.walk(expression)
+        finally:
+            # also when the walk raises (e.g. UPStateMissingFluentError): the evaluator is shared
+            self._variable_assignments = None
         assert r.is_constant()
         return r
 
